@@ -2,7 +2,7 @@
 EXTENDS Sigs, Json
 VARIABLES fam, fi, recv, st, done
 Table(f) == IF f = "filter" THEN Filters ELSE IF f = "test" THEN Tests ELSE Functions
-Init == /\ fam \in {"filter", "test", "function", "range", "types", "parity"}
+Init == /\ fam \in {"filter", "test", "function", "range", "types", "parity", "parityx"}
         /\ done = FALSE
         /\ \/ /\ fam \in {"filter", "test", "function"} /\ fi \in 1..Len(Table(fam))
               /\ recv \in (IF fam = "function" THEN {"none"} ELSE RecvKinds)
@@ -10,6 +10,7 @@ Init == /\ fam \in {"filter", "test", "function", "range", "types", "parity"}
            \/ fam = "range" /\ fi \in 0..1 /\ recv = "none" /\ st \in [1..3 -> {-3, -2, -1, 0, 1, 2, 3, 7}]
            \/ fam = "types" /\ fi = 0 /\ recv \in RecvKinds /\ st = <<>>
            \/ fam = "parity" /\ fi = 0 /\ recv = "int" /\ st \in [1..2 -> -7..7] /\ st[2] # 0
+           \/ fam = "parityx" /\ fi \in 1..Len(Extremes) /\ recv = "int" /\ st \in [1..1 -> {-2, -1, 1, 2}]
 Next == ~done /\ done' = TRUE /\ UNCHANGED <<fam, fi, recv, st>>
 InvPartition == done /\ fam = "types" => PartitionLaws(TypeTests(recv))
 Emit == done =>
@@ -17,5 +18,6 @@ Emit == done =>
          LET f == Table(fam)[fi] IN PrintT(<<"VEC", ToJson([fam |-> fam, name |-> f.name, args |-> f.args, recv |-> recv, st |-> st, cell |-> Cell(f, recv, st)])>>)
     [] fam = "range" -> PrintT(<<"VEC", ToJson([fam |-> fam, start |-> st[1], end |-> st[2], step |-> st[3], r |-> Range(st[1], st[2], st[3])])>>)
     [] fam = "parity" -> PrintT(<<"VEC", ToJson([fam |-> fam, n |-> st[1], d |-> st[2], odd |-> Odd(st[1]), div |-> Divisible(st[1], st[2])])>>)
+    [] fam = "parityx" -> PrintT(<<"VEC", ToJson([fam |-> fam, x |-> Extremes[fi], d |-> st[1], odd |-> OddX(Extremes[fi]), div |-> DivisibleX(Extremes[fi], st[1])])>>)
     [] fam = "types" -> PrintT(<<"VEC", ToJson([fam |-> fam, recv |-> recv, t |-> TypeTests(recv)])>>)
 =============================================================================
